@@ -90,7 +90,8 @@ let parse_cmd (code : string) (fs : string list) : bcmd option =
         | None -> (List.map intern (split '/' it), N0)
         | Some i -> (List.map intern (split '/' (String.sub it 0 i)),
                      payload_of_int (int_of_string (String.sub it (i+1) (String.length it - i - 1))))) (items (nth 1)) in
-    Some (BBase (CSetData (n_of_int flags, its)))
+    if flags land 16 <> 0 then Some (BSetSup (n_of_int flags, its))      (* SETDATANODE_FLAG_ENABLESUPERCEDE *)
+    else Some (BBase (CSetData (n_of_int flags, its)))
   | "r" ->
     let ks = List.map (fun s -> let (p, f) = split_sub s in (relpat_of p, f)) (items (nth 1)) in
     Some (BBase (CRemoveData ((nth 0 = "1"), ks)))
